@@ -24,7 +24,7 @@ func TestAWSStreamingExample(t *testing.T) {
 		{"x-amz-content-sha256", StreamingSigned},
 	}}
 	in := SignInput{Method: r.Method, Path: r.Path, Headers: r.Header,
-		Signed: []string{"content-encoding", "content-length", "host", "x-amz-content-sha256", "x-amz-date", "x-amz-decoded-content-length", "x-amz-storage-class"},
+		Signed:      []string{"content-encoding", "content-length", "host", "x-amz-content-sha256", "x-amz-date", "x-amz-decoded-content-length", "x-amz-storage-class"},
 		PayloadHash: StreamingSigned, Time: tm, Region: "us-east-1", Service: "s3", Creds: cr}
 	seed, _ := in.Signature()
 	if seed != "4f232c4386841ef735655705268965c44a0e4690baa4adea153f7db9fa80a0a9" {
